@@ -68,10 +68,20 @@ json.dump(m,open(p,"w"),indent=1)
 PY
     ;;
   runall)
-    TMP=$(mktemp)
-    for d in "$HERE"/seeded/*/; do n=$(basename "$d"); "$0" run "$n" | tee -a "$TMP"; done
-    echo "TALLY changes=$(ls -d "$HERE"/seeded/*/ | wc -l) CAUGHT=$(grep -cE " CAUGHT " "$TMP") MISSED=$(grep -cE " MISSED " "$TMP") INCONCLUSIVE=$(grep -cE " INCONCLUSIVE " "$TMP") NO-VERDICT=$(grep -cE " NO-VERDICT " "$TMP")"
-    rm -f "$TMP"
+    # tools/seeded.sh runall [lanes]   (lanes > 1: changes are distributed over parallel lanes with their own target dirs)
+    LANES="${2:-1}"
+    TMP=$(mktemp -d)
+    ls -d "$HERE"/seeded/*/ | xargs -n1 basename > "$TMP/all"
+    for l in $(seq 0 $((LANES-1))); do
+      ( awk -v l="$l" -v n="$LANES" 'NR % n == l' "$TMP/all" | while read -r n; do
+          VERIF_TARGET_DIR="/tmp/pgv-sens-target-lane$l" "$0" run "$n" | grep -E " (CAUGHT|MISSED|INCONCLUSIVE|NO-VERDICT) "
+        done > "$TMP/lane$l" ) &
+    done
+    wait
+    cat "$TMP"/lane* | sort
+    echo "TALLY changes=$(wc -l < "$TMP/all") CAUGHT=$(cat "$TMP"/lane* | grep -cE " CAUGHT ") MISSED=$(cat "$TMP"/lane* | grep -cE " MISSED ") INCONCLUSIVE=$(cat "$TMP"/lane* | grep -cE " INCONCLUSIVE ") NO-VERDICT=$(cat "$TMP"/lane* | grep -cE " NO-VERDICT ")"
+    rm -rf "$TMP"
+    for l in $(seq 0 $((LANES-1))); do rm -rf "/tmp/pgv-sens-target-lane$l"; done
     ;;
   *) echo "usage: seeded.sh confirm <src_dir> <name> <property> [extra cargo flags for the demo] | run <name> [ID...] | runall"; exit 2;;
 esac
